@@ -14,7 +14,7 @@ Proof.
   intros gp fp g ob n GCp GC L A G.
   destruct A as [A_n A_id A_fresh A_clean A_keep].
   pose proof L as L0.
-  destruct L as [r_n0 r_exp0 r_id0 r_fresh0 r_row0 r_delv0 r_ks0 r_del0 r_lists0 r_dirty0 r_keep0].
+  destruct L as [r_n0 r_exp0 r_id0 r_fresh0 r_row0 r_delv0 r_ks0 r_del0 r_lists0 r_ksu0 r_dirty0 r_keep0].
   assert (Hn : gn gp <= gn g) by exact r_n0.
   constructor.
   - lia.
@@ -38,13 +38,14 @@ Proof.
     destruct (A_id o D1) as [B1 [B2 B3]]. destruct (B3 D4) as [B4 B5].
     repeat split; try congruence. lia.
   - intros o H. specialize (r_lists0 o H). lia.
+  - exact r_ksu0.
   - exact r_dirty0.
   - intros o Ho Ha Hi Hm.
     assert (Hig : oin (gobjs g o) = false).
     { eapply (Rel_notin gp fp (gobjs g) (gn g) [] [] (gW g)); eauto. apply (proj1 GC). }
     assert (Hag : oatt (gobjs g o) = true).
     { destruct (expunged fp [] o) eqn:Ee.
-      - destruct (r_exp0 o Ho Ee). congruence.
+      - pose proof (r_exp0 o Ho Ee). congruence.
       - destruct (r_id0 o Ho Ee) as [X1 _]. congruence. }
     destruct (A_keep o) as [K1 [K2 K3]]; auto; [lia|].
     destruct (r_keep0 o Ho Ha Hi K3) as [L1 [L2 L3]]. repeat split; congruence.
@@ -60,5 +61,5 @@ Lemma Rel_fresh : forall g f ob n W,
 Proof.
   intros g f ob n W E1 E2 E3 E4 Eo En EW.
   constructor; unfold expunged, pkey, pdelf; rewrite ?E1, ?E2, ?E3, ?E4; cbn; subst; auto; try discriminate; try lia;
-    try (intros; lia); try (intros o [X|X]; discriminate); try (intros; discriminate).
+    try (intros; lia); try (intros o [X|X]; discriminate); try (intros; discriminate); try constructor.
 Qed.
